@@ -10,6 +10,7 @@ use std::sync::Arc;
 
 pub mod frim;
 pub mod bmp_io;
+pub mod bmp_conn;
 pub mod c09;
 pub mod bmp_sm;
 pub mod c17;
